@@ -6,7 +6,7 @@
 
 package browse
 
-//@ unit browse_redirect props=C02 filter=`browse\.Browse\)\.ServeHTTP$`
+//@ unit browse_redirect frames=on props=C02 filter=`browse\.Browse\)\.ServeHTTP$`
 //@ extern strings.HasPrefix
 //@   pure
 //@   ensures result == (len(s) >= len(prefix) && forall(i, 0, len(prefix), s[i] == prefix[i]))
@@ -52,7 +52,7 @@ package browse
 //@   ensures [no_hidden_listed] forall(k, 0, len(result0.Items), exists(j, 0, len(files), !config.Fs.IsHidden(files[j]) && result0.Items[k].Name == files[j].Name()))
 //@   loop 1 invariant 0 <= #i && #i <= len(files) && forall(k, 0, len(fileInfos), exists(j, 0, #i, !config.Fs.IsHidden(files[j]) && fileInfos[k].Name == files[j].Name()))
 
-//@ unit archive_walk props=C02 filter=`browse\.Browse\)\.ServeArchive\$2$`
+//@ unit archive_walk frames=on props=C02 filter=`browse\.Browse\)\.ServeArchive\$2$`
 //@ func (github.com/tmpim/casket/caskethttp/staticfiles.FileServer).IsHidden
 //@   pure
 //@ extern invoke:(io/fs.FileInfo).Mode
